@@ -76,6 +76,20 @@ CHECKS["C14"] = ("proof",
     "machine-checked proof in Coq (checker meaning + skip lemmas) + kernel-evaluated lossless checker on every real "
     "tree + byte-level model/implementation correspondence", "DESIGN.md §6 C14")
 
+CHECKS["C04"] = ("translation_validation",
+    "A Coq-verified checker compress_b (reflection theorem compress_sound; c04_validated) compares the real dumped table "
+    "(unresolved cells, GLR algorithm) with a reference canonical LR(1) automaton built by a Gallina function whose "
+    "correctness is proved (canon_is_canonical: least closures, goto, reachability, distinct states; own nullable/FIRST "
+    "fixpoints proved correct), for every generated grammar x {LALR, LALR_PAGER, LALR_RN}: same cores, exactly the "
+    "transitions, lookaheads = union over the represented canonical states (nothing lost, nothing invented), reductions "
+    "iff some represented state reduces, right-nulled extras only at nullable suffixes, rn lengths least. Consequences "
+    "proved from Compresses alone: lookaheads_are_lalr, no_invented_reduce, reduce_iff, lalr_grammar_no_conflict. The "
+    "state correspondence is a relation (ordered-kernel twins exist), both roots (AUG and AUGL) are covered. Also: every "
+    "grammar the reference says is LALR(1) must compile conflict-free in LR mode. Per grammar the comparison is complete "
+    "over all states, items and lookaheads; grammars are generated.",
+    "translation validation with a Coq-verified validator (reflection theorem) against a proved-correct reference "
+    "canonical LR(1) construction, evaluated by vm_compute on every real table", "DESIGN.md §6 C04, reports/C04.md")
+
 PENDING_REASON = ("not yet claimed: check under construction (DESIGN.md §6 describes the planned theorem, validator and "
                   "correspondence); it is registered only once it runs end to end")
 
